@@ -12,7 +12,7 @@ LEVEL_TEXT = ("Static structural proof of necessary conditions: (R19.1) the port
               "the same function; (R19.3) functions that write into the cache are reachable only from inside a "
               "`with CacheLock(...)` body; (R19.4) no `except A or B` handler. Mutual exclusion and crash "
               "consistency as properties of executions, timeouts and refresh intervals are NOT decided.")
-LEVEL_EXTRA = 'Added after the seeded evaluation: (R19.2) the temporary name cannot equal the final name (callers pass a temporary file); (R19.5) the lock file is never removed or renamed; (R19.6) a lock body that fetches from the network keeps write_time on. (R19.7) looking up a version that is missing from the cache folder (re)runs the local population. (R19.8) only time-recording holders are refused inside the refresh interval; (R19.9) the last-refresh time is read while the lock is held. (R19.10) the lock path is a path join under the folder; (R19.11) an existing cached file is returned only under a comparison with its computed hash. (R19.12) the version-file pattern is anchored at its end wherever it is applied with match/search. (R19.13) the lock waits up to its timeout (no fail_when_locked).'
+LEVEL_EXTRA = 'Added after the seeded evaluation: (R19.2) the temporary name cannot equal the final name (callers pass a temporary file); (R19.5) the lock file is never removed or renamed; (R19.6) a lock body that fetches from the network keeps write_time on. (R19.7) looking up a version that is missing from the cache folder (re)runs the local population. (R19.8) only time-recording holders are refused inside the refresh interval; (R19.9) the last-refresh time is read while the lock is held. (R19.10) the lock path is a path join under the folder; (R19.11) an existing cached file is returned only under a comparison with its computed hash. (R19.12) the version-file pattern is anchored at its end wherever it is applied with match/search. (R19.13) the lock waits up to its timeout (no fail_when_locked). (R19.14) a parameter is handed on to every repository callee that takes a parameter of the same name (11 frozen exceptions package-wide).'
 
 MODULES = ["hed.schema.hed_cache", "hed.schema.hed_cache_lock"]
 HANDLER_MODULES = MODULES + ["hed.schema.hed_schema_io", "hed.schema.schema_io.schema_util"]
@@ -460,3 +460,8 @@ def run(ctx):
                           "the lock fails at once when another process holds it (no retry up to the timeout): a load that coincides with "
                           "another process populating the cache raises fileNotFound instead of waiting", desc="lock waits up to its timeout")
     ctx.floor("R19.13", "lock constructions", n1913, 1)
+
+    # ---------------- R19.14: parameters are handed on to same-named parameters of repository callees
+    from sa.forward import check_forwarding
+    nfw = check_forwarding(ctx, "R19.14", [f for f in prog.functions.values() if f.module.name.startswith(('hed.schema.hed_cache', 'hed.schema.hed_cache_lock', 'hed.schema.schema_io.schema_util'))], 'e.g. the cache folder, the prerelease switch')
+    ctx.floor("R19.14", "same-named parameter sites", nfw, 1)
